@@ -330,15 +330,10 @@ impl ToJmespath for f32 {
 #[cfg(feature = "specialized")]
 impl ToJmespath for f64 {
     fn to_jmespath(self) -> Result<Rcvar, JmespathError> {
-        Ok(Rcvar::new(Variable::Number(
-            serde_json::Number::from_f64(self).ok_or_else(|| {
-                JmespathError::new(
-                    "",
-                    0,
-                    ErrorReason::Parse(format!("Cannot parse {} into a Number", self)),
-                )
-            })?,
-        )))
+        // Non-finite floats become null, as they do on the generic serde path.
+        Ok(Rcvar::new(
+            serde_json::Number::from_f64(self).map_or(Variable::Null, Variable::Number),
+        ))
     }
 }
 
